@@ -168,6 +168,9 @@ func (rep *Report) Finish() int {
 		}
 		remaining = append(remaining, v)
 	}
+	if !rep.NoEvidence || true {
+		knownSeen = append(knownSeen, rep.witnessFindings(kf)...)
+	}
 	// trusted base / assumptions
 	trusted := map[string]bool{}
 	for _, sc := range rep.Sel.Scripts {
